@@ -13,6 +13,13 @@ Search: kernel_x86_long_LCD.s, generated dense kernels and ordinary kernels x ti
    {0, 1, 2, generous, -1}: wall time, flag <=> some worker was SIGKILLed, warning <=> flag (CLI),
    reported LCDs subset of the untimed result with equal values, TP/CP unchanged, every worker
    joined before the shared list is read, no child process afterwards (/proc).
+T: the CONTROL FLOW of both branches of check_for_loopcarried_dep (process creation per section, start, join-all, the poll loop with
+   while...else, kill, join, list(all_paths); the sequential deadline loop) is regenerated from the current source as a function over
+   an oracle (tools/gen_c19.py -> Gen/LcdCtl.v; harness/c19_tie.py); PropsGen/C19gen.v, C19genSeq.v, C19genAll.v prove it equal, for
+   every oracle, to the functional reading Model/ProcCtl.v, hence to run_parallel FlagOnKill / run_sequential SeqDeadlinePerPath in their
+   worlds, restate the theorems of Props/C19.v for it and prove the trace statements (every started worker joined, shared list read
+   after the last join, flag iff SIGKILL sent) for every oracle; the recorded call sequences of the real runs are replayed through the
+   regenerated function (notes/C19-gen.md).
 Sequential branch (kernels below the threshold; harness/c19_seq.py): Model.Timeout.run_sequential under the
    rule read off the source (SeqIgnoresTimeout = as shipped, SeqDeadlinePerPath = repaired) is replayed on runs
    with a synthetic clock (the cut lands on a chosen path): flag, number of clock readings and the delivered
@@ -240,12 +247,14 @@ def coq_trace_case(r, T_us):
             deadline = times[-1] - times[0] > T_us
         exp_how = "ExitDeadline" if deadline else "ExitAllDone"
         exp_poll = exit_idx
+    # the poll interval the code asked for (the model needs it only for its fuel); 0.2 s if the run never slept
+    step = min([e["d_us"] for e in r["events"] if e["ev"] == "sleep" and e.get("d_us", 0) > 0] or [200000])
     ws = "[" + "; ".join("mkworker [] (%s)" % f for f in fins) + "]"
     killed = "[" + "; ".join("true" if p in tr["killed"] else "false" for p in tr["pids"]) + "]"
     alljoined = all(p in tr["joined"] for p in tr["pids"])
-    return ("(let o := run_parallel " + RULE["v"] + " (%s) 200000 (%d) %s in "
+    return ("(let o := run_parallel " + RULE["v"] + " (%s) %d (%d) %s in "
             "how_eqb (how o) %s && Nat.eqb (exit_poll o) %d && Bool.eqb (timed_out o) %s && bl_eqb (killed o) %s && bl_eqb (joined o) (all_true %s) && %s)"
-            % (clk, T_us, ws, exp_how, exp_poll, "true" if r["timed_out"] else "false", killed, ws, "true" if alljoined else "false"))
+            % (clk, step, T_us, ws, exp_how, exp_poll, "true" if r["timed_out"] else "false", killed, ws, "true" if alljoined else "false"))
 
 
 TRACE_PRELUDE = """From Coq Require Import ZArith List Bool String.
@@ -812,7 +821,9 @@ def cli(ctx, ks, cases=None):
 
 
 def run(ctx):
-    ctx.trusted += ["Model/Timeout.v: hand-written state machine of the poll loop, tied by replaying recorded clock/is_alive traces of real runs",
+    ctx.trusted += ["Model/Timeout.v: hand-written state machine of the poll loop, tied by replaying recorded clock/is_alive traces of real runs "
+                    "AND (since the translator tie of the control flow) proved equal to the code regenerated from the current source in the "
+                    "world Model/ProcCtl.toracle",
                     "Model/Parallel.v post (see C16)",
                     "runtime residue (observed, not proved): wall-clock bounds, SIGKILL delivery and reaping, atomicity of ListProxy.extend "
                     "when the sender is killed, /proc as the process table"]
@@ -850,7 +861,8 @@ def run(ctx):
     seq_real(ctx)
     edges(ctx, ks, full)
     # translator tie for the control flow: regenerate it from the current source, re-check PropsGen/C19gen.v against it, replay the recorded runs
-    c19_tie.run(ctx, "PropsGen/C19gen.v", "C19", sequential=True)
+    # (one theorem file per branch + one for the whole search: a change in one branch leaves the theorems about the other standing)
+    c19_tie.run(ctx, ["PropsGen/C19gen.v", "PropsGen/C19genSeq.v", "PropsGen/C19genAll.v"], "C19", sequential=True)
     cases = [("long_LCD", 1, True), ("gs+pad52", 10, False), ("gs+pad52", -1, False)]
     if RULE["seq"] == "SeqDeadlinePerPath":     # the CLI on the sequential branch: cut -> warning, in time -> none
         ks = dict(ks, fib40={"isa": "x86", "arch": "zen2", "text": lcd_par.gen_fib_x86(40)}, fib20={"isa": "x86", "arch": "zen2", "text": lcd_par.gen_fib_x86(20)})
